@@ -30,6 +30,12 @@ def _patches(props):
         if os.path.exists(meta) and os.path.exists(pd):
             prop = json.load(open(meta))["property"]
             out.append((prop, "seeded/" + os.path.basename(d), pd))
+    for d in sorted(glob.glob(os.path.join(VERIF_DIR, "neutral", "*"))):
+        meta = os.path.join(d, "meta.json")
+        pd = os.path.join(d, "patch.diff")
+        if os.path.exists(meta) and os.path.exists(pd):
+            prop = json.load(open(meta))["property"]
+            out.append((prop, "neutral/" + os.path.basename(d), pd))
     if props:
         out = [x for x in out if x[0] in props]
     return out
@@ -57,6 +63,11 @@ def sensitivity(args):
                 tr = subprocess.run(BASELINE_CMD, cwd=repo, capture_output=True, text=True,
                                     env=dict(os.environ, PYTHONPATH=repo, PYTHONDONTWRITEBYTECODE="1"))
                 tests = "pass" if tr.returncode == 0 else "FAIL"
+                if tests == "FAIL":     # once more: the repository's suite has randomised tests
+                    tr = subprocess.run(BASELINE_CMD, cwd=repo, capture_output=True, text=True,
+                                        env=dict(os.environ, PYTHONPATH=repo, PYTHONDONTWRITEBYTECODE="1"))
+                    tests = "pass(on 2nd run)" if tr.returncode == 0 else "FAIL: " + " | ".join(
+                        l for l in tr.stdout.splitlines() if l.startswith("FAILED"))[:300]
             env = dict(os.environ, VERIF_REPO=repo)
             t1 = _real_time.monotonic()
             cr = subprocess.run([os.path.join(VERIF_DIR, "vcheck"), prop, "--tier", "quick", "--no-evidence"],
@@ -66,7 +77,7 @@ def sensitivity(args):
             sigs = [l.strip() for l in cr.stdout.splitlines() if l.strip().startswith("signature:")]
             status = "caught" if (cr.returncode == 1 and lines) else ("MISSED" if cr.returncode == 0 else
                                                                       "HARNESS-ERROR")
-            if "NEUTRAL" in name:      # negative control: the property still holds, the check must stay quiet
+            if "NEUTRAL" in name or name.startswith("neutral/"):      # negative control: the property still holds, the check must stay quiet
                 status = {"MISSED": "quiet-as-expected", "caught": "FALSE-ALARM"}.get(status, status)
             results.append({"mutant": name, "property": prop, "status": status, "check_rc": cr.returncode,
                             "check_wall_s": round(dt, 1), "signatures": sigs[:4], "suite": tests})
